@@ -7,10 +7,11 @@ import Corankco.Driver.Algos
 import Corankco.Driver.Bio
 import Corankco.Driver.Partition
 import Corankco.Driver.Exact
+import Corankco.Driver.C14
 open Corankco
 
 def allOps : List (String × (J → Option J)) :=
-  Driver.c01Ops ++ Driver.c02Ops ++ Driver.c19Ops ++ Driver.c20Ops ++ Driver.algosOps ++ Driver.bioOps ++ Driver.partOps ++ Driver.exactOps
+  Driver.c01Ops ++ Driver.c02Ops ++ Driver.c19Ops ++ Driver.c20Ops ++ Driver.algosOps ++ Driver.bioOps ++ Driver.partOps ++ Driver.exactOps ++ Driver.c14Ops
 
 def handle (line : String) : String :=
   let line := line.trimAscii.toString
